@@ -28,7 +28,7 @@ def other_resolvers(rng, tier, broken, info):
     """full.resolve / sectional.resolve (both in C01's anchors) against simple and the statement."""
     from common import Failure
     out, seen = [], set()
-    n = 250 if tier == "quick" else 8000
+    n = 2500 if tier == "quick" else 8000
     if broken:
         n *= 3
     for _ in range(n):
